@@ -305,6 +305,24 @@ def build(props=("C13", "C14")):
         exsures={"ValueError": {"closed": "old(self._mode) == 0", "unchanged": UNCHANGED}},
     ))
 
+    # ---- readinto: the standard implementation on top of read() (io.BufferedIOBase.readinto: read(len(b)), copy, return the count), taken
+    # under the instance lock - so that it inherits read()'s contract: up to len(b) bytes, short only at the end of the data
+    def base_readinto(interp, recv, args, kwargs):
+        n = INT.fresh(interp.ctx, "nread")
+        interp.ctx.events.append(("BufferedIOBase.readinto", args[0], args[1], n))
+        return n
+
+    p.models["BufferedIOBaseClass.readinto"] = base_readinto
+    p.add(Contract(
+        F, "BinaryZlibFile.readinto", props=props,
+        globals={"io": lambda interp: Opaque("iomod", None, BufferedIOBase=Opaque("BufferedIOBaseClass", None))},
+        params=dict(self=reader(), b=OpaqueOf("writablebuffer")),
+        ensures={"the_count_reported_by_the_standard_implementation": "n_named('BufferedIOBase.readinto') == 1 and result == first_named('BufferedIOBase.readinto')[3]"},
+        ensures_body={"delegates_once_to_the_standard_implementation_on_top_of_read": "n_named('BufferedIOBase.readinto') == 1 and first_named('BufferedIOBase.readinto')[1] is self and first_named('BufferedIOBase.readinto')[2] is b"},
+    ))
+    p.spec_funcs["n_named"] = lambda interp, name: sum(1 for e in interp.ctx.events if e[0] == name)
+    p.spec_funcs["first_named"] = lambda interp, name: [e for e in interp.ctx.events if e[0] == name][0]
+
     p.add(Contract(
         F, "BinaryZlibFile._rewind", props=props, ghost=GHOST,
         params=dict(self=reader()),
@@ -411,8 +429,10 @@ def build(props=("C13", "C14")):
         },
     ))
     p.add(Contract(
-        F, "BinaryZlibFile.__init__", props=["C13"],
-        params=dict(self=ObjOf("BinaryZlibFile"), filename=OneOf(STR, OpaqueOf("fp", seekable_flag=BOOL), INT),
+        F, "BinaryZlibFile.__init__", props=["C13", "C03"],
+        # the target: a path, an io file object, a duck-typed file object (anything with read / write, e.g. tempfile's wrapper: NOT an io.IOBase), or garbage
+        params=dict(self=ObjOf("BinaryZlibFile"), filename=OneOf(STR, OpaqueOf("fp", seekable_flag=BOOL, isinstance=("IOBase", "BufferedIOBase")),
+                                                               OpaqueOf("fp", seekable_flag=BOOL, isinstance=()), INT),
                     mode=OneOf("rb", "wb", "r+b"), compresslevel=OneOf(INT, STR, None)),
         ghost=dict(delivered=INT),
         ensures={
@@ -434,7 +454,7 @@ def build(props=("C13", "C14")):
         from pyvc.contracts import SourceModule
         mod = SourceModule.get(F)
         under = {k[1].split(".", 1)[1] for k in pack.contracts if k[1].startswith("BinaryZlibFile.")}
-        trivial = {"closed", "fileno", "seekable", "readable", "writable", "_check_not_closed", "_check_can_read", "_check_can_write", "_check_can_seek", "readinto"}
+        trivial = {"closed", "fileno", "seekable", "readable", "writable", "_check_not_closed", "_check_can_read", "_check_can_write", "_check_can_seek"}
         out = []
         for cname in ("BinaryZlibFile", "BinaryGzipFile"):
             cls = mod.classes.get(cname)
